@@ -317,4 +317,188 @@ theorem undefinedByC11_closed (d : Defs Body) (e : Expr) (hc : e.closed = true) 
   unfold undefinedByC11; rw [evalN_closed false d [] FUEL [] e hc]
 
 
+-- ------------------------------------------------------------------ a static criterion for "outside the region"
+
+def BinOp.isTruth : BinOp → Bool
+  | .lt | .le | .gt | .ge | .eq | .ne | .land | .lor => true
+  | _ => false
+
+/-- static criterion (chibicc's own typing, no evaluation): the only nodes typed `int` are the results of
+    `< <= > >= == != ! && ||` themselves – every unary `- + ~`, every arithmetic, bitwise and shift operator and
+    every `?:` has type long or unsigned long.  (A comparison result used as an operand of arithmetic is converted to
+    the other operand's type; it is `(a < b) << n`, `-(a < b)`, `(a < b) + (c < d)`, `c ? (a < b) : (c < d)` that are typed `int`.) -/
+def intArithFree (defs : Defs Body) : Nat → List String → Expr → Bool
+  | 0, _, _ => true
+  | _+1, _, .num _ _ => true
+  | f+1, hide, .ident n =>
+    if hide.contains n then true else
+    match defs.lookup n with
+    | some (some e) => intArithFree defs f (n :: hide) e
+    | _ => true
+  | _+1, _, .defined _ => true
+  | f+1, h, .un .lnot e => intArithFree defs f h e
+  | f+1, h, .un op e => intArithFree defs f h e && (ctyOf defs (f+1) h (.un op e) != .int)
+  | f+1, h, .bin op a b =>
+    intArithFree defs f h a && intArithFree defs f h b && (op.isTruth || (ctyOf defs (f+1) h (.bin op a b) != .int))
+  | f+1, h, .cond c a b =>
+    intArithFree defs f h c && intArithFree defs f h a && intArithFree defs f h b && (ctyOf defs (f+1) h (.cond c a b) != .int)
+
+theorem narrowAt_ofBool (ty : CTy) (b : Bool) : (narrowAt false ty (.ofBool b)).2 = false := by
+  cases b <;> cases ty <;> decide
+
+theorem narrowAt_notInt (ty : CTy) (v : Val) (h : (ty != .int) = true) : (narrowAt false ty v).2 = false := by
+  have : ty ≠ .int := by simpa using h
+  simp [narrowAt, this]
+
+theorem fin_flag_notInt (ty : CTy) (r : Except PPErr Val) (fl : Bool) (h : (ty != .int) = true) : (fin false ty r fl).2 = fl := by
+  cases r with
+  | error x => rfl
+  | ok v => simp [fin, narrowAt_notInt ty v h]
+
+theorem arith_truth (op : BinOp) (a b : Val) (hop : op.isTruth = true) (hl : op ≠ .land) (hr : op ≠ .lor) :
+    ∃ t, arith true op a b = .ok (.ofBool t) := by
+  cases op <;> simp [BinOp.isTruth] at hop hl hr <;> exact ⟨_, rfl⟩
+
+/-- outside the static criterion's complement nothing is narrowed: the flag of the known finding stays clear -/
+theorem intArithFree_flag (defs : Defs Body) : ∀ (f : Nat) (h : List String) (e : Expr),
+    intArithFree defs f h e = true → (evalN false defs f h e).2 = false := by
+  intro f
+  induction f with
+  | zero => intro h e _; rfl
+  | succ f ih =>
+    intro h e hs
+    cases e with
+    | num v u => rfl
+    | defined n => rfl
+    | ident n =>
+      simp only [intArithFree] at hs
+      simp only [evalN]
+      by_cases hh : h.contains n = true
+      · rw [if_pos hh]
+      · rw [if_neg hh] at hs ⊢
+        cases hl : defs.lookup n with
+        | none => rfl
+        | some b =>
+          cases b with
+          | none => rfl
+          | some e' => rw [hl] at hs; exact ih (n :: h) e' hs
+    | un op a =>
+      have ha : intArithFree defs f h a = true := by
+        cases op <;> simp only [intArithFree, Bool.and_eq_true] at hs <;> first | exact hs.1 | exact hs
+      have iha := ih h a ha
+      simp only [evalN, Bool.not_false]
+      cases hA : evalN false defs f h a with
+      | mk ra fa =>
+        rw [hA] at iha; simp only at iha; subst iha
+        cases ra with
+        | error x => rfl
+        | ok v =>
+          simp only
+          cases op with
+          | lnot =>
+            simp only [unop, fin]
+            rw [narrowAt_ofBool]; rfl
+          | neg => simp only [intArithFree, Bool.and_eq_true] at hs; exact fin_flag_notInt _ _ _ hs.2
+          | plus => simp only [intArithFree, Bool.and_eq_true] at hs; exact fin_flag_notInt _ _ _ hs.2
+          | bnot => simp only [intArithFree, Bool.and_eq_true] at hs; exact fin_flag_notInt _ _ _ hs.2
+    | cond c a b =>
+      simp only [intArithFree, Bool.and_eq_true] at hs
+      obtain ⟨⟨⟨hc, ha⟩, hb⟩, hty⟩ := hs
+      have ihc := ih h c hc
+      have iha := ih h a ha
+      have ihb := ih h b hb
+      simp only [evalN]
+      cases hC : evalN false defs f h c with
+      | mk rc fc =>
+        rw [hC] at ihc; simp only at ihc; subst ihc
+        cases rc with
+        | error x => rfl
+        | ok vc =>
+          simp only
+          cases hS : (if vc.truth = true then evalN false defs f h a else evalN false defs f h b) with
+          | mk rs fs =>
+            have hfs : fs = false := by
+              cases ht : vc.truth with
+              | true => simp only [ht, if_true] at hS; rw [hS] at iha; exact iha
+              | false => simp only [ht, Bool.false_eq_true, if_false] at hS; rw [hS] at ihb; exact ihb
+            subst hfs
+            cases rs with
+            | error x => rfl
+            | ok v => simp only; rw [fin_flag_notInt _ _ _ hty]; rfl
+    | bin op a b =>
+      simp only [intArithFree, Bool.and_eq_true] at hs
+      obtain ⟨⟨ha, hb⟩, hty⟩ := hs
+      have iha := ih h a ha
+      have ihb := ih h b hb
+      by_cases h1 : op = .land
+      · subst h1
+        simp only [evalN]
+        cases hA : evalN false defs f h a with
+        | mk ra fa =>
+          rw [hA] at iha; simp only at iha; subst iha
+          cases ra with
+          | error x => rfl
+          | ok va =>
+            simp only
+            split
+            · rfl
+            · cases hB : evalN false defs f h b with
+              | mk rb fb =>
+                rw [hB] at ihb; simp only at ihb; subst ihb
+                cases rb <;> rfl
+      · by_cases h2 : op = .lor
+        · subst h2
+          simp only [evalN]
+          cases hA : evalN false defs f h a with
+          | mk ra fa =>
+            rw [hA] at iha; simp only at iha; subst iha
+            cases ra with
+            | error x => rfl
+            | ok va =>
+              simp only
+              split
+              · rfl
+              · cases hB : evalN false defs f h b with
+                | mk rb fb =>
+                  rw [hB] at ihb; simp only at ihb; subst ihb
+                  cases rb <;> rfl
+        · have e1 : evalN false defs (f+1) h (.bin op a b) =
+              (match evalN false defs f h a with
+               | (.error x, fl) => (.error x, fl)
+               | (.ok va, fl) =>
+                 match evalN false defs f h b with
+                 | (.error x, fl2) => (.error x, fl || fl2)
+                 | (.ok vb, fl2) => fin false (ctyOf defs (f+1) h (.bin op a b)) (arith (!false) op va vb) (fl || fl2)) := by
+            cases op <;> first | rfl | exact absurd rfl h1 | exact absurd rfl h2
+          rw [e1]
+          cases hA : evalN false defs f h a with
+          | mk ra fa =>
+            rw [hA] at iha; simp only at iha; subst iha
+            cases ra with
+            | error x => rfl
+            | ok va =>
+              simp only
+              cases hB : evalN false defs f h b with
+              | mk rb fb =>
+                rw [hB] at ihb; simp only at ihb; subst ihb
+                cases rb with
+                | error x => rfl
+                | ok vb =>
+                  simp only [Bool.not_false, Bool.or_false]
+                  cases hop : op.isTruth with
+                  | true =>
+                    obtain ⟨t, ht⟩ := arith_truth op va vb hop h1 h2
+                    rw [ht]
+                    simp only [fin, Bool.false_or]
+                    exact narrowAt_ofBool _ t
+                  | false =>
+                    rw [hop] at hty
+                    simp only [Bool.false_or] at hty
+                    exact fin_flag_notInt _ _ _ hty
+
+/-- the static criterion implies "outside the region" -/
+theorem intArithFree_outside_region (defs : Defs Body) (e : Expr) (h : intArithFree defs FUEL [] e = true) :
+    intResultOverflows defs e = false :=
+  intArithFree_flag defs FUEL [] e h
+
 end ChibiVerif.PPExpr
